@@ -299,6 +299,8 @@ def pattern_signature(p, lo=None, hi=None):
     cause = text_divergence(p)
     if cause:
         return cause
+    if len(parsed) == 3 and parsed[0][0] == sre.AT and parsed[2][0] == sre.AT and parsed[1][0] in (sre.LITERAL, sre.IN):
+        return KF_F32  # (also with \b / \B on either side, which the code counts as anchors)
     if not both_anchored(p):
         return KF_F5
     body = parsed[1:-1]
